@@ -40,11 +40,16 @@ def cminx_exe(sb_dir):
     return exe
 
 
-def run_cmake(sb_dir, exe, inp, outp, extra, raw=False, mode='script', ctx='top'):
-    """mode 'script': cmake -P; 'project': an out-of-source configure of a project whose CMakeLists.txt makes the call (the working
-    directory, against which relative paths are meant, is then neither the source nor the build directory)"""
+def gen_call(inp, outp, extra, raw=False):
     q = cq_raw if raw else cq
-    call = f'cminx_gen_rst({cq(inp)} {cq(outp)} {" ".join(q(e) for e in extra)})'
+    return f'cminx_gen_rst({cq(inp)} {cq(outp)} {" ".join(q(e) for e in extra)})'
+
+
+def run_cmake(sb_dir, exe, inp, outp, extra, raw=False, mode='script', ctx='top', calls=None, keep=False):
+    """mode 'script': cmake -P; 'project': an out-of-source configure of a project whose CMakeLists.txt makes the call (the working
+    directory, against which relative paths are meant, is then neither the source nor the build directory).  `calls`: the CMake text
+    of a whole sequence of calls instead of the one call; `keep`: configure the build directory of the previous run again"""
+    call = calls or gen_call(inp, outp, extra, raw)
     if ctx in ('function', 'macro'):
         # the call sits in a helper that itself received more arguments than it passes on (ARGV<n>/ARGN of the caller must not leak in)
         call = f'{ctx}(docs_helper first second)\n  {call}\nend{ctx}()\ndocs_helper(one two three -p LEAKED nightly "" x)'
@@ -53,7 +58,8 @@ def run_cmake(sb_dir, exe, inp, outp, extra, raw=False, mode='script', ctx='top'
     env.pop('CMINXDIR', None)
     if mode == 'project':
         psrc = os.path.join(sb_dir, '+psrc+'); pbuild = os.path.join(sb_dir, '+pbuild+')
-        shutil.rmtree(psrc, ignore_errors=True); shutil.rmtree(pbuild, ignore_errors=True); os.makedirs(psrc)
+        if not keep: shutil.rmtree(psrc, ignore_errors=True); shutil.rmtree(pbuild, ignore_errors=True)
+        os.makedirs(psrc, exist_ok=True)
         with open(os.path.join(psrc, 'CMakeLists.txt'), 'w') as f:
             f.write('cmake_minimum_required(VERSION 3.19)\nproject(drive LANGUAGES NONE)\n' + body)
         cmd = ['cmake', '-S', psrc, '-B', pbuild]
@@ -153,6 +159,154 @@ def cmake_suite(seed, count, out, drv, budget_s=None, only=None):
     out.suites.append(dict(name='cmake', runs=done))
 
 
+# ---- histories: several calls from one build directory, something the output depends on changed in between ---------------
+SETTINGS_TEXTS = ['rst:\n  module_path_separator: "/"\n', 'rst:\n  prefix: draft\n', 'rst:\n  prefix: release\n  file_extensions_in_titles: true\n',
+                  'input:\n  include_undocumented_function: false\n  include_undocumented_macro: false\n  include_undocumented_option: false\n',
+                  'rst:\n  headers: ["=", "~", "^", "+", ":", ".", "-"]\n  file_extensions_in_modules: true\n', 'input:\n  exclude_filters: ["sub/", "a*"]\n',
+                  'input:\n  auto_exclude_directories_without_cmake: false\nrst:\n  module_path_separator: "::"\n']
+HIST_CLASSES = ['settings', 'edit-file', 'add-file', 'remove-file', 'remove-output', 'remove-page', 'user-config', 'same', 'other-extras',
+                'other-output', 'break-repair', 'edit-keep-mtime']
+BAD_TAIL = '\nset(x "unterminated)\n'
+
+
+def apply_ops(ops, outs):
+    """the changes between two calls, as data (also executed by the hook that runs between two calls of ONE CMake run, hence self-contained)"""
+    import os, shutil
+    for op in ops:
+        if op[0] == 'write':
+            os.makedirs(os.path.dirname(op[1]), exist_ok=True)
+            with open(op[1], 'wb') as f: f.write(op[2].encode('utf-8'))
+        elif op[0] == 'append':          # op[3]: the file keeps its old modification time (restored from an archive, rsync -t)
+            st = os.stat(op[1])
+            with open(op[1], 'ab') as f: f.write(op[2].encode('utf-8'))
+            if op[3]: os.utime(op[1], ns=(st.st_atime_ns, st.st_mtime_ns))
+        elif op[0] == 'chop':
+            with open(op[1], 'rb+') as f: f.truncate(os.path.getsize(op[1]) - op[2])
+        elif op[0] == 'rm': os.unlink(op[1])
+        elif op[0] == 'rm-output': shutil.rmtree(outs[op[1]], ignore_errors=True)
+        elif op[0] == 'rm-page':
+            pages = sorted(os.path.join(r, f) for r, _, fs in os.walk(outs[op[1]]) for f in fs)
+            if pages: os.unlink(pages[op[2] % len(pages)])
+
+
+def gen_history(g, first, inp_abs, is_dir, sfile, ucfg, extra, one_run):
+    """steps = [dict(ops, extra, o)]: before call k the changes ops are made, then cminx_gen_rst(<input> <output o> extra) is called"""
+    files = sorted(os.path.join(r, f) for r, _, fs in os.walk(inp_abs) for f in fs if f.lower().endswith('.cmake')) if is_dir else [inp_abs]
+    dirs = [r for r, _, _ in os.walk(inp_abs)] if is_dir else []
+    steps = [dict(ops=[], extra=extra, o=0, what='first')]
+    cur_s = 0; n_add = 0
+    for c in [first] + [g.choice(HIST_CLASSES) for _ in range(g.choice([1, 1, 2, 2]))]:
+        if c == 'settings' and sfile not in extra: c = 'user-config'
+        if c in ('add-file', 'remove-file') and (not is_dir or (c == 'remove-file' and len(files) < 2)): c = 'edit-file'
+        if c == 'break-repair' and one_run: c = 'edit-keep-mtime'       # a fatal error ends the run: nothing to observe after it
+        st = dict(ops=[], extra=extra, o=0, what=c)
+        if c == 'settings':
+            cur_s = g.choice([i for i in range(len(SETTINGS_TEXTS)) if i != cur_s]); st['ops'] = [['write', sfile, SETTINGS_TEXTS[cur_s]]]
+        elif c == 'user-config': st['ops'] = [['write', ucfg, g.choice(SETTINGS_TEXTS[1:])]]
+        elif c in ('edit-file', 'edit-keep-mtime'):
+            k = g.randint(0, 999); st['ops'] = [['append', g.choice(files), f'\n#[[[\n# Added later ({k}).\n#]]\nfunction(later_{k} x)\nendfunction()\n', c == 'edit-keep-mtime']]
+        elif c == 'add-file':
+            n_add += 1; p = os.path.join(g.choice(dirs), f'added{n_add}.cmake'); files.append(p)
+            st['ops'] = [['write', p, f'#[[[\n# A file that was not there at the last call.\n#]]\nmacro(added_{n_add} y)\nendmacro()\n']]
+        elif c == 'remove-file':
+            p = g.choice(files); files.remove(p); st['ops'] = [['rm', p]]
+        elif c == 'remove-output': st['ops'] = [['rm-output', 0]]
+        elif c == 'remove-page': st['ops'] = [['rm-page', 0, g.randint(0, 50)]]
+        elif c == 'other-extras': st['extra'] = extra + g.choice([['-p', 'other'], ['-e', 'added*'], ['--prefix', 'v2']])
+        elif c == 'other-output': st['o'] = 1
+        elif c == 'break-repair':
+            p = g.choice(files); st['ops'] = [['append', p, BAD_TAIL, False]]
+            steps.append(st); st = dict(ops=[['chop', p, len(BAD_TAIL)]], extra=extra, o=0, what='repaired')
+        steps.append(st)
+        if c in ('other-extras', 'other-output'): steps.append(dict(ops=[], extra=extra, o=0, what='back to the first call'))
+    return steps
+
+
+def history_suite(seed, count, out, drv, budget_s=None, only=None):
+    """the same oracle as (b)/(c) of cmake_suite, per step of a history: a direct command-line history (same changes, own output
+    directories) is recorded first, the inputs are put back, then CMake replays it -- one configure per step in one build directory,
+    or all calls in ONE run with a hook making the changes in between"""
+    if not shutil.which('cmake'): raise common.HarnessError('cmake not installed')
+    import inspect
+    t0 = time.time(); done = 0
+    for n in (range(count) if only is None else [only]):
+        if budget_s and time.time() - t0 > budget_s:
+            out.notes.append(f"cmake history suite stopped at {done}/{count} (time budget)"); break
+        g = random.Random(f"C19h/{seed}/{n}")
+        with impl.Sandbox() as sb:
+            home = os.path.join(sb.dir, 'home'); ucfg = os.path.join(home, '.config', 'cminx', 'config.yaml'); os.makedirs(os.path.dirname(ucfg))
+            q, r = divmod(n, len(HIST_CLASSES)); first = HIST_CLASSES[r]          # every class opens a history; round q walks form x mode for it
+            one_run = (r // 2 + q // 2) % 2 == 1; mode = ['script', 'project'][(r + q) % 2]
+            kind = 'nested' if first in ('add-file', 'remove-file') else ['nested', 'dir', 'file', 'nested', 'dir'][n % 5]
+            kind, inp_abs, is_dir = gen_input(g, sb.dir, kind); inp = inp_abs
+            if (n // 4) % 2 == 1: inp = os.path.relpath(inp_abs, sb.dir)
+            ctx = ['top', 'function', 'top', 'macro'][(n // 3) % 4]
+            sfile = os.path.join(sb.dir, 's.yaml'); open(sfile, 'w').write(SETTINGS_TEXTS[0])
+            extra = []
+            for grp in g.sample([x for x in EXTRA_GROUPS if '{SFILE}' not in x], g.choice([0, 0, 1, 1, 2])): extra += grp
+            if first == 'settings' or g.random() < 0.5: extra = extra + ['-s', sfile] if g.random() < 0.5 else ['-s', sfile] + extra
+            steps = gen_history(g, first, inp_abs, is_dir, sfile, ucfg, extra, one_run)
+            key = ('C19h', seed, n); rec = dict(suite='cmake-history', key=key, kind=kind, extra=extra, mode=mode, relative_input=inp != inp_abs, call_context=ctx,
+                                                 form='one-run' if one_run else 'configure-again', history=[s['what'] for s in steps])
+            out.note_case(key, True); out.dist['history:' + rec['form']] += 1; out.dist['history-mode:' + mode] += 1; out.dist['history-input:' + kind] += 1
+            for s in steps: out.dist['history-step:' + s['what']] += 1
+            out.sample(dict(suite='cmake-history', input_kind=kind, extra=extra, history=rec['history']), limit=6)
+            exe = cminx_exe(sb.dir)
+            outs_b = [os.path.join(sb.dir, 'out_b'), os.path.join(sb.dir, 'out_b2')]; outs_c = [os.path.join(sb.dir, 'out_c'), os.path.join(sb.dir, 'out_c2')]
+            world = [os.path.join(sb.dir, os.path.relpath(inp_abs, sb.dir).split(os.sep)[0]), sfile, home]        # all that the changes touch, outputs aside
+            bak = os.path.join(sb.dir, '+backup+'); os.makedirs(bak)
+            for i, w in enumerate(world): (shutil.copytree if os.path.isdir(w) else shutil.copy2)(w, os.path.join(bak, str(i)))
+            # 1. what the command line produces at every moment of the history
+            cli = []; prev = None
+            for s in steps:
+                apply_ops(s['ops'], outs_c)
+                rcc = run_cli(sb.dir, exe, [inp, '-o', outs_c[s['o']]] + s['extra'] + (['-r'] if is_dir else []))
+                trees = [T.read_tree(o) for o in outs_c]; cli.append((rcc, trees))
+                if prev is not None and s['ops'] and s['o'] == 0 and rcc == 0: out.dist['history-step-changes-output:' + str(trees[0] != prev)] += 1
+                if rcc == 0 and s['o'] == 0: prev = trees[0]
+            out.traces_validated += len(steps)
+            # 2. everything back to the beginning
+            for i, w in enumerate(world):
+                if os.path.isdir(w): shutil.rmtree(w); shutil.copytree(os.path.join(bak, str(i)), w)
+                else: shutil.copy2(os.path.join(bak, str(i)), w)
+            # 3. the same history through cminx_gen_rst()
+            got = []        # per step: (cmake status or None, fatal?, trees)
+            if one_run:
+                hist = os.path.join(sb.dir, '+hist+.json'); snap = os.path.join(sb.dir, '+snap+'); hook = os.path.join(sb.dir, 'between.py')
+                json.dump(dict(steps=steps, outs=outs_b, snap=snap), open(hist, 'w'))
+                write_exec(hook, f"#!{PY}\nimport json, os, shutil, sys\n{inspect.getsource(apply_ops)}\nk = int(sys.argv[1]); H = json.load(open({hist!r}))\n"
+                                 "for i, o in enumerate(H['outs']):\n    if os.path.isdir(o): shutil.copytree(o, os.path.join(H['snap'], '%d.%d' % (k - 1, i)))\n"
+                                 "apply_ops(H['steps'][k]['ops'], H['outs'])\n")
+                calls = '\n'.join((f'execute_process(COMMAND {cq(hook)} {k} COMMAND_ERROR_IS_FATAL ANY)\n' if k else '') + gen_call(inp, outs_b[s['o']], s['extra'])
+                                  for k, s in enumerate(steps))
+                rcb, txtb = run_cmake(sb.dir, exe, inp, None, None, mode=mode, ctx=ctx, calls=calls)
+                fatal = rcb != 0 and 'configure continues' not in txtb
+                for k in range(len(steps)):
+                    last = k == len(steps) - 1
+                    trees = [T.read_tree(o if last else os.path.join(snap, '%d.%d' % (k, i))) for i, o in enumerate(outs_b)]
+                    got.append((rcb, fatal, trees, txtb))
+            else:
+                for k, s in enumerate(steps):
+                    apply_ops(s['ops'], outs_b)
+                    rcb, txtb = run_cmake(sb.dir, exe, inp, outs_b[s['o']], s['extra'], mode=mode, ctx=ctx, keep=k > 0)
+                    got.append((rcb, rcb != 0 and 'configure continues' not in txtb, [T.read_tree(o) for o in outs_b], txtb))
+            out.traces_validated += len(steps)
+            for k, (s, (rcc, tc), (rcb, fatal, tb, txtb)) in enumerate(zip(steps, cli, got)):
+                r = dict(rec, step=k, change_before_this_call=s['what'], ops=[o[:2] for o in s['ops']])
+                if rcc != 0:
+                    out.dist['history-failing-step:cmake-rc=%d' % rcb] += 1
+                    if not fatal: out.violations.append(dict(r, detail=dict(kind='CMinx failed but the CMake call did not fail fatally', cli_status=rcc, cmake_status=rcb, output=txtb[-400:]), model_agrees=True))
+                    if one_run: break
+                elif rcb != 0 and (not one_run or all(c[0] == 0 for c in cli)):
+                    out.violations.append(dict(r, detail=dict(kind='valid input failed', cmake_status=rcb, cli_status=rcc, output=txtb[-400:]), model_agrees=True)); break
+                elif tb != tc:
+                    i = 0 if tb[0] != tc[0] else 1
+                    diff = sorted(set(tb[i]) ^ set(tc[i])) or [p for p in tb[i] if tb[i][p] != tc[i].get(p)]
+                    out.violations.append(dict(r, detail=dict(kind='output tree through cminx_gen_rst differs from the command line', paths=diff[:6], output_directory=i), model_agrees=True)); break
+        done += 1
+    out.suites.append(dict(name='cmake-history', runs=done))
+
+
 def k5_witness(drv):
     with impl.Sandbox() as sb:
         os.makedirs(os.path.join(sb.dir, 'home', '.config'))
@@ -169,6 +323,6 @@ def replay(v, drv):
     key = v.get('key') or []
     if len(key) != 3: return dict(fails=True, note='no case key recorded')
     out = Outcome('C19')
-    cmake_suite(key[1], key[2] + 1, out, drv, only=key[2])
+    (history_suite if v.get('suite') == 'cmake-history' else cmake_suite)(key[1], key[2] + 1, out, drv, only=key[2])
     mine = [x for x in out.violations if x.get('detail', {}).get('kind') == v.get('detail', {}).get('kind')] or out.violations
-    return dict(fails=bool(mine), violations=[x.get('detail') for x in mine][:3], case=dict(kind=v.get('kind'), mode=v.get('mode'), relative_input=v.get('relative_input'), extra=v.get('extra')))
+    return dict(fails=bool(mine), violations=[x.get('detail') for x in mine][:3], case=dict(kind=v.get('kind'), mode=v.get('mode'), relative_input=v.get('relative_input'), extra=v.get('extra'), history=v.get('history')))
